@@ -306,7 +306,7 @@ package gossipval
 //@   requires synccomm: forall e EntryI :: {ce_epc(e)} !ce_epc_err(e) && ce_epc(e).CurrentSyncCommittee != nil ==> len(ce_epc(e).CurrentSyncCommittee.CachedPubkeys) == gv_spec(scpVal).SYNC_COMMITTEE_SIZE && len(ce_epc(e).CurrentSyncCommittee.Indices) == gv_spec(scpVal).SYNC_COMMITTEE_SIZE
 //@   assigns ghost(gvver), ghost(n_mark_contrib), heap(CachedPubkey.decompressed)
 //@   ensures accept_timing: res.Result == ACCEPT ==> signedContribAndProof.Message.Contribution.Slot >= gv_slot_after(old(gvver), -MAXIMUM_GOSSIP_CLOCK_DISPARITY) && signedContribAndProof.Message.Contribution.Slot <= gv_slot_after(old(gvver), MAXIMUM_GOSSIP_CLOCK_DISPARITY)
-//@   ensures accept_shape: res.Result == ACCEPT ==> signedContribAndProof.Message.Contribution.SubcommitteeIndex < common.SYNC_COMMITTEE_SUBNET_COUNT && bl_count(signedContribAndProof.Message.Contribution.AggregationBits) >= 1
+//@   ensures accept_shape: res.Result == ACCEPT ==> signedContribAndProof.Message.Contribution.SubcommitteeIndex < common.SYNC_COMMITTEE_SUBNET_COUNT && bv_count(signedContribAndProof.Message.Contribution.AggregationBits) >= 1
 //@   ensures accept_selected: res.Result == ACCEPT ==> sync_is_aggregator(gv_spec(scpVal), signedContribAndProof.Message.SelectionProof)
 //@   ensures accept_known: res.Result == ACCEPT ==> ch_known_at(old(gvver), signedContribAndProof.Message.Contribution.BeaconBlockRoot, signedContribAndProof.Message.Contribution.Slot) && !ce_epc_err(ch_entry_at(old(gvver), signedContribAndProof.Message.Contribution.BeaconBlockRoot, signedContribAndProof.Message.Contribution.Slot))
 //@   ensures accept_member: res.Result == ACCEPT ==> (let isc := ce_epc(ch_entry_at(old(gvver), signedContribAndProof.Message.Contribution.BeaconBlockRoot, signedContribAndProof.Message.Contribution.Slot)).CurrentSyncCommittee in let sz := gv_spec(scpVal).SYNC_COMMITTEE_SIZE / common.SYNC_COMMITTEE_SUBNET_COUNT in exists i :: signedContribAndProof.Message.Contribution.SubcommitteeIndex * sz <= i && i < (signedContribAndProof.Message.Contribution.SubcommitteeIndex + 1) * sz && isc.Indices[i] == signedContribAndProof.Message.AggregatorIndex)
